@@ -72,10 +72,19 @@ def create_refuses(sym, n, with_bp):
     sym.check("refuses-iff-invalid", sym.iff(raised, sym.not_(ok)))
 
 
-def roundtrip(sym, rtype, n_short, n_ver, with_bp, bp_type):
+# the words of the type table themselves (and their dash-separated parts) as short names and versions: an id in which the text of a
+# type occurs more than once
+WORDS = sorted(set(RELEASE_TYPES) | set(w for t in RELEASE_TYPES for w in t.split("-")))
+
+
+def roundtrip(sym, rtype, n_short, n_ver, with_bp, bp_type, words=False):
     """parse_release_id(create_release_id(x)) == x for everything create_release_id accepts"""
-    short = sym.str("short", n_short)
-    version = sym.str("version", n_ver)
+    if words:
+        short = sym.one_of("short", WORDS)
+        version = sym.one_of("version", [w for w in WORDS if "-" not in w] + ["7", "7.1"])
+    else:
+        short = sym.str("short", n_short)
+        version = sym.str("version", n_ver)
     sym.assume(sym.no_char(version, "-@"))
     try:
         if with_bp:
@@ -150,6 +159,8 @@ def jobs(tier, seed):
     ns, nv = (10, 8) if big else (6, 5)
     for rtype in RELEASE_TYPES:
         out.append({"harness": "roundtrip", "params": {"rtype": rtype, "n_short": ns, "n_ver": nv, "with_bp": False, "bp_type": None}})
+    for rtype in RELEASE_TYPES:
+        out.append({"harness": "roundtrip", "params": {"rtype": rtype, "n_short": 0, "n_ver": 0, "with_bp": False, "bp_type": None, "words": True}})
     bp_types = RELEASE_TYPES if big else ["ga", "updates", "updates-testing", "e4s"]
     rtypes = RELEASE_TYPES if big else ["ga", "updates-testing", "fast"]
     for rtype in rtypes:
@@ -166,6 +177,7 @@ META = {
         "strings range over all Unicode code points except surrogates, up to the lengths in evidence.bounds",
         "predicates: every string up to 10 (thorough 16) characters against an independent statement of the documented rule; create_release_id refusals: shorts/versions up to 6 (4 with base product)",
         "round trip: short <= 6, version <= 5 (thorough 10/8) for every release type, with a base product for a selection (thorough: all) of type pairs",
+        "word jobs: short name and version drawn from the words of the release type table and their dash-separated parts (an id in which the text of a type occurs twice)",
         "call histories: the layered and the plain id of one release (short <= 3 letters, version <= 3 over digits and dots) parsed one after the other in both orders, the first result edited by the caller",
     ],
 }
